@@ -7,10 +7,16 @@ GREEK OMEGA, Hangul jamo sequence, Hangul syllable, classes.dex, a/b/c} holding 
 19-name set x entry method {stored, deflated, mixed} x content {empty, 1 byte, 70 kB, mixed}; every entry of an
 archive has its own content.  The APK is opened with APK(raw, raw=True, skip_analysis=True): the cheapest constructor
 path - the file-access API does not depend on the manifest analysis (a reduced set is also opened WITHOUT skip_analysis).
+(C) every subset of size 2 and 3 of the first 13 names in every local-entry order with the central directory in the same and in
+the reversed order; (D) one archive each with a 65535-byte entry name, a 65535-byte zip comment, both, and 1000 entries.
+History: a decoy archive holding all 19 names with OTHER contents is opened and read through the same calls before every judged
+archive (inside judge(), so also in replay()).
 Oracle (the generating model):
   get_files()            = the entry names (as a multiset; order is not judged); every listed name is a stored name
                            (so get_file(listed name) gives that entry's content - checked with the next line)
   get_file(n)            = the entry's uncompressed content, for every entry
+  get_files_crc32() / get_files_types() / files / get_files_information() / get_dex() / get_raw()
+                         tell the same story (names; zlib.crc32 of each stored content; classes.dex or b""; the input bytes)
   get_file(absent)       raises FileNotPresent, for every alphabet name not in the archive + prefixes of present names
   get_dex_names()        = exactly the root entries  classes<ASCII digits>*.dex  (decided by string operations, no regexp)
   get_all_dex()          = their contents
@@ -21,6 +27,7 @@ documented pattern).
 """
 import itertools
 import unicodedata
+import zlib
 
 from mc.core import Acc
 
@@ -107,27 +114,83 @@ def subsets(kmax=4):
     yield tuple(range(len(NAMES)))
 
 
+def order_cases():
+    """C: ENTRY ORDER x CENTRAL-DIRECTORY ORDER.  Every subset of size 2 and 3 of the first 13 names, every permutation of the
+    local-entry order, central directory in the same and in the reversed order (method / content 'mixed')."""
+    for k in (2, 3):
+        for c in itertools.combinations(range(NBASE), k):
+            for perm in itertools.permutations(c):
+                if perm == c:
+                    yield (perm, "mixed", "mixed", "cd-reversed")         # sorted order + same CD order is part A
+                else:
+                    yield (perm, "mixed", "mixed", "cd-same")
+                    yield (perm, "mixed", "mixed", "cd-reversed")
+
+
+SPECIALS = ["name-65535-bytes", "comment-65535-bytes", "1000-entries", "name-65535+comment-65535"]
+
+
 def cases(ctx):
     for sub in subsets(5 if ctx.thorough else 4):
         for m in METHODS:
             for c in CONTENTS:
                 yield (sub, m, c)
+    yield from order_cases()
+    for sp in SPECIALS:                   # D: one representative at the maximum of the name-length / comment-length fields, many entries
+        for m in ("stored", "deflated"):
+            yield ((), m, "1", sp)
 
 
 def build(case):
     """-> (entries [(name, data, method)], zip bytes)"""
     from gen import apkgen
-    sub, m, c = case
+    sub, m, c = case[:3]
+    extra = case[3] if len(case) > 3 else None
     entries = [(NAMES[i], content(i, c), method(pos, m)) for pos, i in enumerate(sub)]
-    return entries, apkgen.make_zip(entries)
+    if extra in (None, "cd-same"):
+        return entries, apkgen.make_zip(entries)
+    if extra == "cd-reversed":
+        return entries, apkgen.make_zip(entries, cd_order=list(range(len(entries)))[::-1])
+    comment = b""
+    if "name-65535" in extra:
+        entries = [("classes.dex", b"D", m), ("n/" + "x" * 65533, b"L", m), ("classes2.dex", b"E", m)]
+    if "comment-65535" in extra:
+        comment = b"c" * 65535
+        entries = entries or [("classes.dex", b"D", m), ("a/b/c", b"A", m)]
+    if extra == "1000-entries":
+        entries = [("e/%04d" % i, bytes([i & 0xFF]) * (i % 7), m) for i in range(999)] + [("classes.dex", b"D", m)]
+    return entries, apkgen.make_zip(entries, comment=comment)
+
+
+_decoy = []
+
+
+def decoy():
+    """DECOY HISTORY: before every judged archive a fixed, different archive with the SAME entry names (all 19) but other contents
+    goes through the same API calls in this process (results ignored), so state keyed by entry name that survives from one APK
+    object to the next is part of every judged case - also in replay()."""
+    from androguard.core import apk as A
+    from gen import apkgen
+    if not _decoy:
+        _decoy.append(apkgen.make_zip([(n, b"DECOY:" + n.encode("utf-8") * 3, "deflated") for n in NAMES]))
+    try:
+        a = A.APK(_decoy[0], raw=True, skip_analysis=True)
+        for n in a.get_files():
+            a.get_file(n)
+        list(a.get_dex_names()), list(a.get_all_dex()), a.is_multidex(), a.get_files_crc32(), a.get_dex()
+    except Exception:     # noqa
+        pass
 
 
 def judge(case, full_analysis=False):
     """-> list of (key, msg)"""
     from androguard.core import apk as A
+    decoy()
     entries, raw = build(case)
     out = []
     tag = "%s" % (case,)
+    if len(case) > 3 and case[3] in SPECIALS:
+        tag = "special %s/%s" % (case[3], case[1])
     try:
         a = A.APK(raw, raw=True, skip_analysis=not full_analysis)
     except Exception as e:     # noqa
@@ -159,6 +222,34 @@ def judge(case, full_analysis=False):
             r = "raised %s" % type(e).__name__
         out.append(("listed-name-not-stored:" + "+".join(sorted(CATEGORY[n] for n in close) or ["other"]),
                     "%s: get_files() lists %r which is not an entry (entries %r); get_file of it %s" % (tag, g, names, r)))
+    # 1c. alternative entry points must tell the same story: get_files_crc32 / get_files_types / files / get_files_information
+    #     (names, CRC-32 of the stored content; the guessed type strings are not judged), get_dex (classes.dex or b""), get_raw
+    try:
+        crc = dict(a.get_files_crc32())
+        want = {n: zlib.crc32(d) & 0xFFFFFFFF for n, d, _ in entries}
+        if crc != want:
+            odd = sorted(n for n in set(crc) | set(want) if crc.get(n) != want.get(n))
+            out.append(("get_files_crc32:" + "+".join(sorted({CATEGORY.get(n, "other") for n in odd if n in want}) or ["extra-name"]),
+                        "%s: get_files_crc32() differs from zlib.crc32 of the stored contents for %r" % (tag, odd[:4])))
+        for fn in ("get_files_types", "files"):
+            t = getattr(a, fn)
+            t = t() if callable(t) else t
+            if sorted(t) != sorted(names):
+                odd = sorted(set(t) ^ set(names))
+                out.append(("%s:%s" % (fn, "+".join(sorted({CATEGORY.get(n, "other") for n in odd if n in names}) or ["extra-name"])),
+                            "%s: %s keys %r != entries" % (tag, fn, sorted(t)[:6])))
+        info = list(a.get_files_information())
+        if sorted((n, c) for n, _, c in info) != sorted(want.items()):
+            out.append(("get_files_information:" + ("count" if len(info) != len(want) else "content"),
+                        "%s: get_files_information() (name, crc) pairs differ from the stored entries" % tag))
+        gd = bytes(a.get_dex())
+        if gd != dict((n, d) for n, d, _ in entries).get("classes.dex", b""):
+            out.append(("get_dex:" + ("present" if "classes.dex" in names else "absent"),
+                        "%s: get_dex() returned %d bytes, classes.dex is %s" % (tag, len(gd), "stored" if "classes.dex" in names else "absent")))
+        if bytes(a.get_raw()) != raw:
+            out.append(("get_raw", "%s: get_raw() is not the archive given to APK()" % tag))
+    except Exception as e:     # noqa
+        out.append(("alt-entry-point:exception:%s" % type(e).__name__, "%s: %s: %s" % (tag, type(e).__name__, e)))
     # 2. contents
     for n, data, meth in entries:
         try:
@@ -238,6 +329,12 @@ def space(ctx):
     return {"names": NAMES, "subset_sizes": "A: 0..%d of names[0:13]; B: 1..4 of names[13:19]+[classes.dex, a/b/c] with >= 1 of "
                                                   "names[13:19]; + full set" % (5 if ctx.thorough else 4), "methods": METHODS, "contents": CONTENTS,
             "absent_probes": "alphabet names not in the archive + " + repr(EXTRA_ABSENT), "archives": n,
+            "C_order": "all subsets of size 2,3 of names[0:13] x all permutations of the local-entry order x central directory in the "
+                       "same / reversed order (method, content = mixed): %d archives" % sum(1 for _ in order_cases()),
+            "D_maxima": SPECIALS, "decoy_history": "an archive holding all 19 names with other contents is opened and read first, "
+                                                   "inside judge()",
+            "alternative_entry_points": ["get_files_crc32", "get_files_types (keys)", "files (keys)", "get_files_information (name, crc)",
+                                         "get_dex", "get_raw"],
             "full_analysis_subset": "every 16th archive is additionally opened without skip_analysis"}
 
 
@@ -246,8 +343,10 @@ def run_shard(ctx, shard):
     for idx, case in enumerate(cases(ctx)):
         if idx % NSH != shard:
             continue
-        sub, m, c = case
+        sub, m, c = case[:3]
+        extra = case[3] if len(case) > 3 else None
         names = [NAMES[i] for i in sub]
+        acc.count("part_" + ("A+B" if extra is None else ("D-maxima" if extra in SPECIALS else "C-order")))
         ndex = sum(1 for n in names if is_root_dex(n))
         look = sorted(CATEGORY[n] for n in names if CATEGORY[n].startswith(("lookalike", "nested")))
         acc.case(nontrivial=None, outcome=(ndex, tuple(look), m, c))
@@ -256,23 +355,25 @@ def run_shard(ctx, shard):
         acc.count("entries_read", len(sub))
         acc.count("absent_probes", len(NAMES) - len(sub) + len(EXTRA_ABSENT))
         acc.count("archives_with_%d_dex" % min(ndex, 3))
-        acc.count("archives:%s:%s" % (m, c))
+        if extra is None:
+            acc.count("archives:%s:%s" % (m, c))
         res = judge(case)
         for key, msg in res:
-            acc.violation(key, {"sub": list(sub), "method": m, "content": c, "full": False}, msg)
+            acc.violation(key, {"sub": list(sub), "method": m, "content": c, "full": False, "extra": extra}, msg)
         if (idx // NSH) % 16 == 0:
             acc.count("opened_with_full_analysis")
             seen = {k for k, _ in res}
             for key, msg in judge(case, full_analysis=True):
                 if key not in seen:      # only what the manifest-analysis constructor path adds
-                    acc.violation("full-analysis:" + key, {"sub": list(sub), "method": m, "content": c, "full": True}, msg)
+                    acc.violation("full-analysis:" + key, {"sub": list(sub), "method": m, "content": c, "full": True, "extra": extra}, msg)
         if shard == 0 and len(acc.samples) < 2 and len(sub) == 3:
             acc.sample({"names": names, "method": m, "content": c})
     return acc
 
 
 def replay(ctx, w):
-    res = judge((tuple(w["sub"]), w["method"], w["content"]), full_analysis=bool(w.get("full")))
+    case = (tuple(w["sub"]), w["method"], w["content"]) + ((w["extra"],) if w.get("extra") else ())
+    res = judge(case, full_analysis=bool(w.get("full")))
     return "\n".join("%s: %s" % r for r in res) if res else None
 
 
@@ -285,6 +386,10 @@ def finalize(ctx, acc):
             if acc.extra.get("archives:%s:%s" % (m, c)) != nsub:
                 acc.harness_error("method x content combination %s/%s: %r archives judged, %d name sets in the space"
                                   % (m, c, acc.extra.get("archives:%s:%s" % (m, c)), nsub))
+    norder = sum(1 for _ in order_cases())
+    if acc.extra.get("part_C-order") != norder or acc.extra.get("part_D-maxima") != 2 * len(SPECIALS):
+        acc.harness_error("order / maxima parts: %r / %r judged, %d / %d in the space" % (
+            acc.extra.get("part_C-order"), acc.extra.get("part_D-maxima"), norder, 2 * len(SPECIALS)))
     for k in ("archives_with_0_dex", "archives_with_1_dex", "archives_with_2_dex", "archives_with_3_dex"):
         if not acc.extra.get(k):
             acc.harness_error("vacuous: no case in class %s" % k)
